@@ -113,6 +113,33 @@ def d2(ctx, F):
                     v = flow.derived(parent, {pl["l"]}, calls=())
                     if any(strip_generics(x.callee) == "tokio::task::spawn::spawn" and any(op_local(a) in v for a in x.args) for x in parent.calls()):
                         spawned = True
+                    # or handed to a workspace-local wrapper that spawns the future it is given (e.g. `spawn_logged(what, fut)`)
+                    for x in parent.calls():
+                        wb = F.bodies.get(x.t.get("resolved") or "")
+                        if wb is None or wb.crate != "selium_server" or not any(op_local(a) in v for a in x.args):
+                            continue
+                        for k_, a in enumerate(x.args):
+                            if op_local(a) in v:
+                                pv = flow.derived(wb, {k_ + 1}, calls=())
+                                if any(strip_generics(y.callee) == "tokio::task::spawn::spawn" and any(op_local(b_) in pv for b_ in y.args) for y in wb.calls()):
+                                    spawned = True
+        if not spawned and c.dest is not None:
+            # the future returned by handle_stream(..) is itself handed to tokio::spawn or to a spawning wrapper (never awaited here)
+            v = flow.derived(b, {c.dest["l"]}, calls=())
+            for x in b.calls():
+                if x is c or not any(op_local(a) in v for a in x.args):
+                    continue
+                if strip_generics(x.callee) == "tokio::task::spawn::spawn":
+                    spawned = True
+                wb = F.bodies.get(x.t.get("resolved") or "")
+                if wb is not None and wb.crate == "selium_server":
+                    for k_, a in enumerate(x.args):
+                        if op_local(a) in v:
+                            pv = flow.derived(wb, {k_ + 1}, calls=())
+                            if any(strip_generics(y.callee) == "tokio::task::spawn::spawn" and any(op_local(b_) in pv for b_ in y.args) for y in wb.calls()):
+                                spawned = True
+            if any(a.source is c for a in flow.awaits(b)):
+                spawned = False
         ctx.check(spawned, "C17.D2.own-task", "handle_stream-awaited-inline:%s" % b.path.split("selium_server::")[-1],
                   "handle_stream runs in a task of its own (called only inside a future passed to tokio::spawn)", c.span)
     # routers share nothing: no Arc / Mutex / static in the router structs
